@@ -4125,3 +4125,54 @@ def r147(ctx: Ctx) -> RuleReport:
                           f'the lexer, and the same object for a literal - the answer differs between inputs that are equal, and between processes')
     rep.analysed['identity_comparisons_without_a_singleton'] = n_cmp
     return rep
+
+
+# ---------------------------------------------------------------------------------------------
+_DESTRUCTIVE = {'clear', 'remove', 'pop', 'popitem', 'sort', 'reverse', 'insert'}
+
+
+@rule('R149', 'an in-place operator (`g -= h`, `g |= h`) does not read an attribute of its right operand after destructively changing the same attribute of self (the operands may be one object)')
+def r149(ctx: Ctx) -> RuleReport:
+    rep = RuleReport('R149', r149.title, floor=0)
+    n_ops = 0
+    for fi in ctx.repo.all_functions():
+        name = fi.name.rsplit('.', 1)[-1]
+        if not (name.startswith('__i') and name.endswith('__') and name not in ('__init__', '__iter__', '__int__', '__index__', '__invert__', '__init_subclass__', '__instancecheck__')):
+            continue
+        if len(fi.positional) != 2:
+            continue
+        me, other = fi.positional
+        n_ops += 1
+        writes = {}   # attribute -> first destructive statement
+        for st in walk_local(fi.node):
+            attr, why = None, None
+            if isinstance(st, (ast.Assign, ast.AugAssign)):
+                for tg in (st.targets if isinstance(st, ast.Assign) else [st.target]):
+                    if isinstance(tg, ast.Subscript) and isinstance(tg.value, ast.Attribute) and norm(tg.value.value) == me and isinstance(tg.slice, ast.Slice):
+                        attr, why = tg.value.attr, f'`{norm(tg)} = ...` replaces the contents in place'
+                    elif isinstance(tg, ast.Attribute) and norm(tg.value) == me and isinstance(st, ast.Assign):
+                        attr, why = tg.attr, f'`{norm(tg)} = ...` re-binds it'
+            elif isinstance(st, ast.Delete):
+                for tg in st.targets:
+                    if isinstance(tg, ast.Subscript) and isinstance(tg.value, ast.Attribute) and norm(tg.value.value) == me:
+                        attr, why = tg.value.attr, f'`del {norm(tg)}`'
+            elif isinstance(st, ast.Expr) and isinstance(st.value, ast.Call) and isinstance(st.value.func, ast.Attribute) and st.value.func.attr in _DESTRUCTIVE \
+                    and isinstance(st.value.func.value, ast.Attribute) and norm(st.value.func.value.value) == me:
+                attr, why = st.value.func.value.attr, f'`{norm(st.value)[:40]}`'
+            if attr and (attr not in writes or st.lineno < writes[attr][0].lineno):
+                writes[attr] = (st, why)
+        for attr, (st, why) in sorted(writes.items()):
+            end = getattr(st, 'end_lineno', st.lineno)
+            # a write inside a loop is followed by every read in that loop
+            loops = [lp for lp in walk_local(fi.node) if isinstance(lp, (ast.For, ast.While)) and any(x is st for x in ast.walk(lp))]
+            reads = [n for n in walk_local(fi.node) if isinstance(n, ast.Attribute) and n.attr == attr and norm(n.value) == other and isinstance(n.ctx, ast.Load)
+                     and not any(x is n for x in ast.walk(st)) and (n.lineno > end or any(any(x is n for x in ast.walk(lp)) for lp in loops))]
+            key = f'{fi.fq}: `{other}.{attr}` is not read after `{me}.{attr}` was changed'
+            if reads:
+                r0 = min(reads, key=lambda n: (n.lineno, n.col_offset))
+                rep.violation(key, fi.loc(r0), f'{why} (line {st.lineno}) and afterwards `{other}.{attr}` is read: in `g.{name}(g)` (the augmented assignment with g on both sides) both names are one object, so the read sees the '
+                              f'changed contents, not the operand the caller passed - e.g. `g -= g` walks an already emptied list and leaves every marker of the removed triples behind')
+            else:
+                rep.ok(key, fi.loc(st))
+    rep.analysed['in_place_operators'] = n_ops
+    return rep
